@@ -18,6 +18,7 @@ package connect
 
 import (
 	"bytes"
+	"reflect"
 	"sync"
 	"sync/atomic"
 )
@@ -28,6 +29,10 @@ import (
 // poison pattern over its whole capacity, so that any use after release shows
 // up as a corrupted payload, and a table of the buffers currently sitting in a
 // pool detects double releases.
+//
+// H1b (compressor pools): the same double-release table for the compressors
+// and decompressors sitting in a compressionPool (two references to one
+// gzip.Reader in a pool end up in two calls at once).
 //
 // H2 (yield points): named points in duplexHTTPCall at which an installed
 // function is called, so that a harness can delay one side of a call and
@@ -48,6 +53,13 @@ var (
 	verifPoolReused    uint64
 	verifPoolDoublePut uint64
 	verifPoolReport    func(kind string)
+	verifCodecInPool   = make(map[any]struct{})
+
+	// verifPoolTableOff switches the double-release tables (and with them the
+	// global mutex) off; the poison pattern stays. A harness that runs under the
+	// race detector uses it so that the hook adds no happens-before edges between
+	// unrelated calls, which would hide races from the detector.
+	verifPoolTableOff atomic.Bool
 )
 
 const verifPoolTableMax = 1 << 14
@@ -79,7 +91,14 @@ func verifYield(point string) {
 	}
 }
 
+// VerifSetPoolTable switches the double-release tables on (the default) or
+// off.
+func VerifSetPoolTable(enabled bool) { verifPoolTableOff.Store(!enabled) }
+
 func verifPoolGet(buffer *bytes.Buffer) {
+	if verifPoolTableOff.Load() {
+		return
+	}
 	verifPoolMu.Lock()
 	verifPoolGets++
 	if _, ok := verifPoolInPool[buffer]; ok {
@@ -96,6 +115,9 @@ func verifPoolPut(buffer *bytes.Buffer) {
 	raw = raw[:cap(raw)]
 	for i := range raw {
 		raw[i] = VerifPoison
+	}
+	if verifPoolTableOff.Load() {
+		return
 	}
 	verifPoolMu.Lock()
 	verifPoolPuts++
@@ -114,5 +136,39 @@ func verifPoolPut(buffer *bytes.Buffer) {
 	verifPoolMu.Unlock()
 	if report != nil {
 		report("double-put")
+	}
+}
+
+func verifCodecTrackable(x any) bool {
+	return !verifPoolTableOff.Load() && x != nil && reflect.TypeOf(x).Kind() == reflect.Ptr
+}
+
+func verifCodecGet(x any) {
+	if !verifCodecTrackable(x) {
+		return
+	}
+	verifPoolMu.Lock()
+	delete(verifCodecInPool, x)
+	verifPoolMu.Unlock()
+}
+
+func verifCodecPut(x any) {
+	if !verifCodecTrackable(x) {
+		return
+	}
+	verifPoolMu.Lock()
+	var report func(string)
+	if _, ok := verifCodecInPool[x]; ok {
+		verifPoolDoublePut++
+		report = verifPoolReport
+	} else {
+		if len(verifCodecInPool) >= verifPoolTableMax {
+			verifCodecInPool = make(map[any]struct{})
+		}
+		verifCodecInPool[x] = struct{}{}
+	}
+	verifPoolMu.Unlock()
+	if report != nil {
+		report("double-put of a pooled compressor/decompressor")
 	}
 }
